@@ -373,8 +373,22 @@ func (c *Ctx) yieldGuarded(pkg *packages.Package, call *ast.CallExpr) string {
 	if !ok {
 		return "result of the parallel combinator is not kept in a variable"
 	}
-	obj := info.ObjectOf(id)
-	fn := c.EnclosingFunc(call)
+	uses, bad := c.producerUsesGuarded(pkg, c.EnclosingFunc(call), info.ObjectOf(id), id, 0)
+	if bad != "" {
+		return bad
+	}
+	if uses == 0 {
+		return "the producer returned by the parallel combinator is never run"
+	}
+	return ""
+}
+
+// producerUsesGuarded: every use of the producer variable obj inside fn is a
+// call with a recovering consumer whose recovered panic is raised again, or
+// hands the producer to a private helper that does exactly that with its
+// parameter (guardProducer(p)).
+func (c *Ctx) producerUsesGuarded(pkg *packages.Package, fn ast.Node, obj types.Object, id *ast.Ident, depth int) (int, string) {
+	info := pkg.TypesInfo
 	body := funcBody(fn)
 	uses, bad := 0, ""
 	ast.Inspect(body, func(n ast.Node) bool {
@@ -384,6 +398,37 @@ func (c *Ctx) yieldGuarded(pkg *packages.Package, call *ast.CallExpr) string {
 		}
 		uses++
 		uc, ok := c.Parent(uid).(*ast.CallExpr)
+		if ok && uc.Fun != ast.Expr(uid) && depth < 2 {
+			// handed to a private helper: the helper has to guard its parameter
+			if cal := Callee(info, uc); cal != nil && cal.Pkg() == pkg.Types {
+				if hfd := findFuncDecl(pkg, cal); hfd != nil && hfd.Body != nil && hfd.Type.Params != nil {
+					k, pi := 0, -1
+					for ai, a := range uc.Args {
+						if ast.Unparen(a) == ast.Expr(uid) {
+							pi = ai
+						}
+					}
+					var pid *ast.Ident
+					for _, f := range hfd.Type.Params.List {
+						for _, nm := range f.Names {
+							if k == pi {
+								pid = nm
+							}
+							k++
+						}
+					}
+					if pid != nil {
+						hu, hb := c.producerUsesGuarded(pkg, hfd, info.Defs[pid], pid, depth+1)
+						if hb != "" {
+							bad = "in " + cal.Name() + ": " + hb
+						} else if hu == 0 {
+							bad = "the helper " + cal.Name() + " never runs the producer it is given"
+						}
+						return true
+					}
+				}
+			}
+		}
 		if !ok || uc.Fun != uid || len(uc.Args) != 1 {
 			bad = "the producer returned by the parallel combinator escapes unguarded (" + nodeStr(c.Fset, c.Parent(uid)) + ")"
 			return true
@@ -446,13 +491,7 @@ func (c *Ctx) yieldGuarded(pkg *packages.Package, call *ast.CallExpr) string {
 		}
 		return true
 	})
-	if bad != "" {
-		return bad
-	}
-	if uses == 0 {
-		return "the producer returned by the parallel combinator is never run"
-	}
-	return ""
+	return uses, bad
 }
 
 // ---------------------------------------------------------------------------
